@@ -100,8 +100,8 @@ func (k Keeper) ReporterStake(ctx context.Context, repAddr sdk.AccAddress, query
 					iterError = err
 					return true
 				}
-				// get the token amount
-				tokens := validator.TokensFromSharesTruncated(stakingdel.Shares).TruncateInt()
+				// get the token amount, valued like the by-delegation walk below, HasMin and CheckSelectorsDelegations
+				tokens := validator.TokensFromShares(stakingdel.Shares).TruncateInt()
 				totalTokens = totalTokens.Add(tokens)
 				delegates = append(delegates, &types.TokenOriginInfo{DelegatorAddress: selectorAddr, ValidatorAddress: valAddrr.Bytes(), Amount: tokens})
 				return false
